@@ -29,6 +29,8 @@ for f,ps in sorted(file_props.items()):
         st=l.strip()
         if st.startswith('//') or st.startswith('#[') or 'log::' in st or 'debug_assert' in st or 'panic!' in st or 'unreachable!' in st or 'assert!' in st: continue
         if 'cfg(feature = "verif")' in l or 'verif' in l: continue
+        # patterns found equivalent w.r.t. the properties in the first sweep (log-only state, order of unordered output)
+        if 'self.coord =' in l or '.count = ' in l or '.count += ' in l or 'self.buffer.push_back' in l or 'tokio' in l: continue
         for pat,rep in OPS:
             for m in re.finditer(pat,l):
                 # skip generics / lifetimes for < and >
